@@ -18,19 +18,27 @@ RULE = ("S: every message that is a sequence of <= K tokens from {a, bc, space, 
         "prefix, and the message parts concatenated (as sent, or as a receiver low-dequotes them) have the message's "
         "non-whitespace characters in order.  A limit is only enforced when every single character fits into the room "
         "(otherwise the statement is unsatisfiable and ValueError / an over-long line are both accepted).  "
+        "R: the same with lineRate set (irc.reactor rebound to a task.Clock, queue drained by advancing it), so the order "
+        "in which queued lines reach the wire is judged.  An over-long line is attributed to its cause: multibyte "
+        "characters, quoted NUL/0x10, or a quoted CR/LF (which the unmodified splitter never lets through).  The content "
+        "and the no-CR/LF clause must hold under one and the same reading of the lines (as sent / low-dequoted).  "
         "Q: every string of <= 5 characters over {0x10, backslash, 0x01, LF, CR, NUL, a, n, r, 0} through "
         "lowQuote/lowDequote, ctcpQuote/ctcpDequote and their composition.  "
         "non-trivial = distinct transport outputs with >= 2 lines, or a quoted string that differs from its input")
-BOUNDS = {"quick": "S: K<=4 over 12 tokens, rooms {1,2,4,5,10}, msg+notice; K=5 over 8 tokens, msg; Q: length <= 5",
-          "thorough": "S: K<=5 over 12 tokens, rooms {1,2,3,4,5,8,10}, msg+notice; Q: length <= 6"}
+BOUNDS = {"quick": "S: K<=4 over 12 tokens, rooms {1,2,4,5,10}, msg+notice; K=5 over 8 tokens, msg; R (lineRate): K<=3 over "
+                   "12 tokens msg, K<=4 over 8 tokens notice; Q: length <= 5",
+          "thorough": "S: K<=5 over 12 tokens, rooms {1,2,3,4,5,8,10}, msg+notice; R (lineRate): K<=4 over 12 tokens, "
+                      "msg+notice; Q: length <= 6"}
 ASSUMPTIONS = [
-    "lineRate is None (no queueing); user/channel names are ASCII; messages are encodable text (no lone surrogates)",
+    "lineRate is None, or 0.5 s with twisted.words.protocols.irc.reactor rebound to a task.Clock by the harness "
+    "(the module-global seam the client schedules its queue on); user/channel names are ASCII; messages are encodable text (no lone surrogates)",
     "whitespace = str.isspace(); the alphabet avoids characters on which textwrap and str.isspace disagree",
     "a character's wire cost is its UTF-8 length, 2 for NUL and 0x10 (low-level quoting) - used only to decide whether "
     "a limit is satisfiable at all, never for the verdict on a line",
 ]
-MIN = {"quick": {"evaluations": 350000, "nontrivial": 125000, "outcomes": 6},
-       "thorough": {"evaluations": 3000000, "nontrivial": 1000000, "outcomes": 6}}
+MIN = {"quick": {"evaluations": 370000, "nontrivial": 135000, "outcomes": 9, "rate_limited_cases_with_3_or_more_lines": 8000},
+       "thorough": {"evaluations": 3400000, "nontrivial": 1200000, "outcomes": 9,
+                    "rate_limited_cases_with_3_or_more_lines": 100000}}
 
 LONGW = "0123456789AB"
 TOK12 = ["a", "bc", " ", "\n", "\r", "\t", "-", "é", "\U0001F600", "\x10", "\x00", LONGW]
@@ -64,24 +72,62 @@ def ref_lowdequote(s):
     return "".join(out)
 
 
+def quoted_kinds(s):
+    """Which kinds of low-level quoted pairs a wire text contains (names the cause of an over-long line)."""
+    out, i = set(), 0
+    while i < len(s):
+        if s[i] == "\x10" and i + 1 < len(s):
+            out.add("nul-or-mquote" if s[i + 1] in "0\x10" else "cr-or-lf" if s[i + 1] in "rn" else "other")
+            i += 2
+        else:
+            i += 1
+    return out
+
+
 def char_cost(ch):
     return 2 if ch in "\x00\x10" else len(ch.encode("utf-8"))
 
 
-def make_client():
+RATE = 0.5      # lineRate of the rate-limited configuration (seconds of harness clock between lines)
+
+
+def make_client(rate=None):
     from twisted.words.protocols import irc
     from mc.net import MemTransport, connect
     c = irc.IRCClient()
     c.performLogin = 0
-    c.lineRate = None
+    c.lineRate = rate
     t = connect(c, MemTransport())
     t.clear()
     return c, t
 
 
-def judge(kind, message, room, client=None):
+def _send(c, kind, user, message, limit, rate):
+    """Call msg/notice; with a lineRate, irc.reactor is a task.Clock for the duration and the queue is drained by
+    advancing it until nothing is scheduled any more."""
+    if rate is None:
+        getattr(c, kind)(user, message, limit)
+        return
+    from twisted.words.protocols import irc
+    from twisted.internet import task
+    clock = task.Clock()
+    saved = irc.reactor
+    irc.reactor = clock
+    try:
+        getattr(c, kind)(user, message, limit)
+        for _ in range(100000):
+            if not clock.getDelayedCalls():
+                break
+            clock.advance(rate)
+        else:
+            raise AssertionError("rate-limited queue never drains")
+    finally:
+        irc.reactor = saved
+
+
+def judge(kind, message, room, client=None, rate=None):
     """Run one case on the real client; return (violations, outcome-class, transport bytes)."""
-    c, t = client or make_client()
+    c, t = client or make_client(rate)
     t.clear()
     cmd, user = KINDS[kind]
     prefix = ("%s %s :" % (cmd, user)).encode("ascii")
@@ -91,12 +137,12 @@ def judge(kind, message, room, client=None):
     bad = []
     exc = None
     try:
-        getattr(c, kind)(user, message, limit)
+        _send(c, kind, user, message, limit, rate)
     except Exception as e:  # noqa - judged below
         exc = e
     stream = t.value()
     t.clear()
-    det = {"kind": kind, "message": message, "limit": limit, "room": room, "sent": stream[:400]}
+    det = {"kind": kind, "message": message, "limit": limit, "room": room, "sent": stream[:400], "lineRate": rate}
     if exc is not None:
         if isinstance(exc, ValueError) and not satisfiable:
             return [], "refused-unsatisfiable", stream
@@ -130,27 +176,38 @@ def judge(kind, message, room, client=None):
                 causes = []
                 if len(part) > len(chars):
                     causes.append("multibyte-characters-counted-as-one-octet")
-                if len(chars) > len(ref_lowdequote(chars)):
+                quoted = quoted_kinds(chars)
+                if "nul-or-mquote" in quoted:
                     causes.append("low-level-quoting-expands-after-split")
+                if "cr-or-lf" in quoted:
+                    # the unmodified splitter turns CR/LF into blanks / line breaks before anything is quoted
+                    causes.append("low-level-quoted-CR-or-LF-sent")
+                if "other" in quoted:
+                    causes.append("low-level-quoted-other")
                 for cause in causes or ["unexplained"]:
                     bad.append((P + "line-over-limit:" + cause, dict(det, line=piece, octets=wire_len)))
             else:
                 bad.append((P + "line-over-limit:split-width", dict(det, line=piece, octets=wire_len)))
-    # content
-    views = []
+    # content: one consistent reading of the lines (as sent, or as a receiver low-dequotes them) must have the
+    # message's non-whitespace characters in order AND no CR/LF inside a line
+    views = []       # (text, has CR/LF inside a message part under this reading)
     try:
-        per_line = [p.decode("utf-8") for p in parts]
-        views.append("".join(ref_lowdequote(p) for p in per_line))
+        per_line = [ref_lowdequote(p.decode("utf-8")) for p in parts]
+        views.append(("".join(per_line), any("\r" in p or "\n" in p for p in per_line)))
     except UnicodeDecodeError:
         pass
     try:
         whole = b"".join(parts).decode("utf-8")
-        views.append(whole)
-        views.append(ref_lowdequote(whole))
+        views.append((whole, False))          # raw CR/LF were already judged above
+        deq = ref_lowdequote(whole)
+        views.append((deq, "\r" in deq or "\n" in deq))
     except UnicodeDecodeError:
         pass
-    if not any(nonws(v) == want for v in views):
-        got = nonws(views[0]) if views else ""
+    matching = [crlf for v, crlf in views if nonws(v) == want]
+    if matching and all(matching):
+        bad.append((P + "line-contains-CR-or-LF:after-low-level-dequoting", det))
+    elif not matching:
+        got = nonws(views[0][0]) if views else ""
         if sorted(got) == sorted(want):
             k = "content-reordered"
         elif len(got) < len(want):
@@ -194,6 +251,11 @@ def shards(tier, seed):
         for f in range(8):
             for g in range(8):
                 out.append(["S5", "msg", 8, [f, g], 5])
+        out.append(["R", "msg", 12, None, 0])
+        for f in range(12):
+            out.append(["R", "msg", 12, f, 3])
+        for f in range(8):
+            out.append(["R", "notice", 8, f, 4])
         qn = 5
     else:
         for kind in ("msg", "notice"):
@@ -201,6 +263,10 @@ def shards(tier, seed):
             for f in range(12):
                 for g in range(12):
                     out.append(["S", kind, 12, [f, g], 5])
+        out.append(["R", "msg", 12, None, 0])
+        for f in range(12):
+            out.append(["R", "msg", 12, f, 4])
+            out.append(["R", "notice", 12, f, 4])
         qn = 6
     for f in range(len(QALPHA)):
         out.append(["Q", f, qn])
@@ -219,7 +285,7 @@ def _messages(shard):
     if isinstance(first, int):
         first = [first]
     head = tuple(toks[i] for i in first)
-    lengths = [maxlen] if fam == "S5" else range(max(2, len(head)), maxlen + 1)
+    lengths = [maxlen] if fam == "S5" else range(max(2, len(head)), maxlen + 1)   # families S and R
     for n in lengths:
         for rest in itertools.product(toks, repeat=n - len(head)):
             yield head + rest
@@ -244,18 +310,22 @@ def run_shard(shard, tier, seed):
         return st
     rooms = ROOMS_Q if tier == "quick" else ROOMS_T
     kind = shard[1]
-    client = make_client()
+    rate = RATE if shard[0] == "R" else None
+    client = None if rate else make_client()      # the rate-limited client is built fresh for every case
     for toks in _messages(shard):
         message = "".join(toks)
         for room in rooms:
             st.evaluations += 1
-            bad, outcome, stream = judge(kind, message, room, client)
-            st.outcome(outcome)
+            bad, outcome, stream = judge(kind, message, room, client, rate)
+            st.outcome(outcome if rate is None else "rate-limited:" + outcome)
             if stream.count(b"\n") >= 2:
-                st.nt(stream)
+                st.nt((stream, rate))
+            if rate and stream.count(b"\n") >= 3:
+                st.count("rate_limited_cases_with_3_or_more_lines")
             for sig, det in bad:
                 st.outcome("bad:" + sig.split(":", 1)[1])
-                st.violation(sig, det, {"family": "S", "kind": kind, "message": [ord(ch) for ch in message], "room": room})
+                st.violation(sig, det, {"family": "S", "kind": kind, "message": [ord(ch) for ch in message], "room": room,
+                                        "rate": rate})
     st.sample({"kind": kind, "message": message, "room": rooms[-1]})
     return st
 
@@ -263,4 +333,4 @@ def run_shard(shard, tier, seed):
 def replay(w):
     if w["family"] == "Q":
         return judge_quote("".join(chr(i) for i in w["text"]))[0]
-    return judge(w["kind"], "".join(chr(i) for i in w["message"]), w["room"])[0]
+    return judge(w["kind"], "".join(chr(i) for i in w["message"]), w["room"], None, w.get("rate"))[0]
